@@ -20,7 +20,10 @@ Local Open Scope Z_scope.
      covered by the direct oracle only.
    - OPending (cyclic values such as l = [l] under ListOf(Any)): the honest serialization of a cycle is a reference to a
      container that is still open (WRefOpen / WRef (OPending k)); recvw models their reception (C02 uses it), but ser and
-     slice describe acyclic values only. *)
+     slice describe acyclic values only.
+   and for a third kind that has no serialized form at all:
+   - OText with a code point that has no UTF-8 form (a lone surrogate): the sender refuses it locally, see
+     C12_unencodable_call_refused_locally / C12_decoder_accepts_iff_encodable below. *)
 Theorem C12_sender_accepts_receiver_delivers : forall voc c o,
   wf c = true -> owf o = true -> c12_guard c o = true -> checkObject c o = true ->
   recvw (Some c) (slice voc o) = RDeliver o.
@@ -80,6 +83,47 @@ Theorem C12_result_delivered : forall voc ms c o w,
   send_answer voc ms o = Some w -> recv_answer (Some c) w = Callback o.
 Proof. exact c12_result. Qed.
 Print Assumptions C12_result_delivered.
+
+(* "Values the receiver's token-level checks would refuse are already refused locally by the sender" -- text that has no
+   UTF-8 form (a str holding a lone surrogate: os.fsdecode / surrogateescape produce them).  Every UnicodeConstraint
+   accepts it (checkObject counts code points), so it passes callRemote's schema check; owf excludes it from the theorems
+   above because it has no serialized form: UnicodeSlicer.sliceBody (translated: strict encode, UnicodeEncodeError ->
+   Violation) fails that one object while it is being serialized -- the call / the answer is refused on the sending side,
+   nothing is delivered, the connection stays up. *)
+Theorem C12_unencodable_call_refused_locally : forall voc ms a kw,
+  forallb encodable a && forallb (fun nv => encodable (snd nv)) kw = false -> send_call voc ms a kw = None.
+Proof. exact unencodable_call_refused. Qed.
+Print Assumptions C12_unencodable_call_refused_locally.
+
+Theorem C12_unencodable_result_refused_locally : forall voc ms o, encodable o = false -> send_answer voc ms o = None.
+Proof. exact unencodable_result_refused. Qed.
+Print Assumptions C12_unencodable_result_refused_locally.
+
+(* ... and the two ends agree on WHICH texts those are: the receiver's decoder (UnicodeUnslicer.receiveChild:
+   obj.decode("UTF-8"), strict; Schema.utf8_valid, compared with Python's decoder on every run) accepts the UTF-8 form of a
+   text -- the generic one- to four-byte forms, which is also what a lenient errors="surrogatepass" encoder emits --
+   exactly when the text is encodable, and the STRING header the sender writes is the length of that form.  So a body
+   the strict encoder produces is never refused, and letting a lone surrogate out (instead of refusing it locally) always
+   costs the connection (recv_text: UnicodeDecodeError is neither Violation nor BananaError). *)
+Theorem C12_sent_text_decodable : forall cps, text_encodable cps = true ->
+  utf8_valid (utf8_encode cps) = true /\ zlen (utf8_encode cps) = utf8size cps.
+Proof. exact utf8_encode_valid. Qed.
+Print Assumptions C12_sent_text_decodable.
+
+Theorem C12_decoder_accepts_iff_encodable : forall cps, forallb cp_in_range cps = true ->
+  utf8_valid (utf8_encode cps) = text_encodable cps.
+Proof. exact utf8_encode_valid_iff. Qed.
+Print Assumptions C12_decoder_accepts_iff_encodable.
+
+Theorem C12_unencodable_witness :
+  let o := OList [OText [99; 97; 102; 56553]; OText [97]] in let c := CList (CText (Some 4) 0) None 0 in
+  checkObject c o = true /\ encodable o = false /\ utf8_valid (utf8_encode [99; 97; 102; 56553]) = false /\
+  recvw (Some c) (slice [] o) = (if unicode_unslicer_undecodable_violation then RViol else RAbort) /\
+  send_call [] (ms1 c) [o] [] = None /\
+  encodable (OText [55295; 57344; 1114111]) = true /\ utf8_valid (utf8_encode [55295; 57344; 1114111]) = true /\
+  recvw (Some (CText (Some 3) 0)) (slice [] (OText [55295; 57344; 1114111])) = RDeliver (OText [55295; 57344; 1114111]).
+Proof. exact unencodable_witness. Qed.
+Print Assumptions C12_unencodable_witness.
 
 (* The full statement (without c12_guard) is FALSE on the current tree; each excluded region has its witness: *)
 Theorem C12_refuted_choice :        (* D7a, oracle/choiceof-container-drops-connection *)
